@@ -15,7 +15,7 @@ RULE = (
     "cross paths and longer chains); breadth-first to depth D from every start table; invariant in every reached state: view == the abstract "
     "start table. Start tables: base table (2 chains x 2 residues x 3 atoms) with every combination of <= d field deviations, emitted as PDB "
     "and as mmCIF by an independent emitter. Every written PDB text is also read by an independent column reader (80 columns, fields in their "
-    "columns, MODEL/ENDMDL around every model, TER after every chain). non-trivial = table with at least one deviation; distinct = (table, start format)."
+    "columns, MODEL/ENDMDL around every model, TER after every chain). splitter.main is run in-process on every d<=1 table (with and without a second model) for input format x output format {keep, PDB, mmCIF}: one file per model that reads back as exactly that model. non-trivial = table with at least one deviation; distinct = (table, start format)."
 )
 ASSUMPTIONS = [
     "coordinates are 3-decimal values, occupancy/B 2-decimal values within PDB field widths",
@@ -138,8 +138,18 @@ def cases(tier):
                 yield dict(devs=list(c), start=fmt)
 
 
+def splitter_cases(tier):
+    two = [k for k, f in enumerate(DEVS) if f.__name__ == "_second_model"][0]
+    for c in enumio.combos(DEVS, 1):
+        for extra in ((), (two,)):
+            devs = sorted(set(c) | set(extra))
+            for fmt in ("PDB", "mmCIF"):
+                for target in ("keep", "PDB", "mmCIF"):
+                    yield dict(devs=devs, start=fmt, splitter=target)
+
+
 def families(tier):
-    return [("tables", lambda: cases(tier), 1)]
+    return [("tables", lambda: cases(tier), 1), ("splitter", lambda: splitter_cases(tier), 1)]
 
 
 def _num(v):
@@ -216,9 +226,83 @@ def first_diff(got, want):
     return None
 
 
+def run_splitter(case, table):
+    """splitter.main in-process: one output file per model, each must read back as exactly that model's atoms."""
+    import contextlib
+    import io
+    import os
+    import shutil
+    import sys
+
+    from rnapolis import parser_v2, splitter
+
+    from mc.engine import scratch_dir
+
+    out = []
+    sd = scratch_dir()
+    ext = ".pdb" if case["start"] == "PDB" else ".cif"
+    src = os.path.join(sd, "split_in" + ext)
+    with open(src, "w") as f:
+        f.write(enumio.emit_pdb(table) if case["start"] == "PDB" else enumio.emit_cif(table))
+    od = os.path.join(sd, "split_out")
+    shutil.rmtree(od, ignore_errors=True)
+    old = sys.argv
+    sys.argv = ["splitter", "-o", od, "-f", case["splitter"], src]
+    buf, err = io.StringIO(), io.StringIO()
+    try:
+        with contextlib.redirect_stdout(buf), contextlib.redirect_stderr(err):
+            r = observe(splitter.main)
+    finally:
+        sys.argv = old
+    if r[0] == "exc" and not r[1].startswith("exception:SystemExit"):
+        return [viol("splitter:" + r[1], "splitter.main raised " + r[2])]
+    if "Error" in err.getvalue():
+        out.append(viol("splitter:reports-error", "splitter.main printed an error for a table within PDB limits: %s" % err.getvalue()[:200]))
+    models = []
+    for a in table:
+        if a["model"] not in models:
+            models.append(a["model"])
+    target = case["splitter"] if case["splitter"] != "keep" else case["start"]
+    for m in models:
+        name = "split_in_model_%d%s" % (m, ".pdb" if target == "PDB" else ".cif")
+        path = os.path.join(od, name)
+        if not os.path.exists(path):
+            out.append(viol("splitter:missing-file", "no output file for model %d (%s)" % (m, sorted(os.listdir(od)) if os.path.isdir(od) else "no directory")))
+            continue
+        txt = open(path).read()
+        rb = observe(parser_v2.parse_pdb_atoms if target == "PDB" else parser_v2.parse_cif_atoms, txt)
+        if rb[0] == "exc":
+            out.append(viol("splitter:read-back:" + rb[1], "reading %s raised %s" % (name, rb[2])))
+            continue
+        want = norm_view(enumio.table_view([a for a in table if a["model"] == m]))
+        dd = first_diff(df_view(rb[1]), want)
+        if dd:
+            out.append(viol("splitter:%s->%s:%s" % (case["start"], target, dd[0]), "splitter output for model %d: %s" % (m, dd[1])))
+        if target == "PDB":
+            atoms, problems, events = enumio.read_pdb_layout(txt)
+            problems += enumio.check_pdb_structure(events)
+            if problems:
+                out.append(viol("splitter:layout:" + _layout_kind(problems[0]), "splitter PDB output: %s" % "; ".join(problems[:3])))
+    return out
+
+
 def run_case(case):
     from rnapolis import parser_v2
 
+    if "splitter" in case:
+        table = enumio.apply_deviations([DEVS[k] for k in case["devs"]])
+        try:
+            enumio.emit_pdb(table)
+            fits = not any(a["serial"] > 99999 - 2 for a in table)
+        except AssertionError:
+            fits = False
+        if not fits:
+            return dict(nontrivial=False, outcome="outside-pdb-limits", violations=[])
+        v = run_splitter(case, table)
+        u = {}
+        for x in v:
+            u.setdefault(x["signature"], x)
+        return dict(nontrivial=True, outcome="splitter:%s->%s" % (case["start"], case["splitter"]), violations=list(u.values()), states=1, transitions=1, traces=1)
     table = enumio.apply_deviations([DEVS[k] for k in case["devs"]])
     try:
         enumio.emit_pdb(table)
